@@ -13,10 +13,18 @@ func zzListener(name, k string, n int) v2.Listener {
 	l.Name = name
 	for i := 0; i < n; i++ {
 		fc := v2.FilterChain{}
-		t := zzTLS(k)
-		fc.TLSContexts = []v2.TLSConfig{zzTLS(k)}
-		fc.TLSConfig = &t
-		fc.TLSConfigs = []v2.TLSConfig{zzTLS(k)}
+		// a listener built in code may carry its key in any of the three positions of a filter chain
+		form := verif.Choose("tls_form", 4) // all three, tls_contexts only, tls_context only, tls_context_set only
+		if form == 0 || form == 1 {
+			fc.TLSContexts = []v2.TLSConfig{zzTLS(k)}
+		}
+		if form == 0 || form == 2 {
+			t := zzTLS(k)
+			fc.TLSConfig = &t
+		}
+		if form == 0 || form == 3 {
+			fc.TLSConfigs = []v2.TLSConfig{zzTLS(k)}
+		}
 		l.FilterChains = append(l.FilterChains, fc)
 	}
 	return l
